@@ -245,6 +245,10 @@ def cases_for(tier):
                     continue
                 if m >= 17 and (ugp is not False or api == "alias"):
                     continue
+                # the two 17-segment frames (131072 subsets, two solves each: ~3 CPU hours per (frame, mode)) are split:
+                # closed strands on 2x3, open ones on 3x2
+                if m >= 17 and (cycle != ((h, w) == (2, 3)) or (h, w) == (3, 2)):
+                    continue  # (the 3x2 frame with open strands would add another ~3 CPU hours; its 2^17 subsets are covered for C06)
                 out.append({"shape": [h, w], "cycle": cycle, "api": api, "ugp": ugp, "cfg": cfg})
     return out
 
@@ -305,7 +309,7 @@ def main(tier, seed, only=None):
         seed,
         "exploration",
         "BoolGridFrame sizes %s; ALL 2^m segment subsets; single_cycle off/on and the single_cycle_crossable alias; auxiliary and "
-        "native connectivity encodings (17-segment frames: auxiliary only).  Scale family (not exhaustive): the 7x7 frame (thorough 10x10) with loops in opposite corners, and on frames up to 4x4 / 3x5 (thorough 6x6) the perimeter, the serpentine "
+        "native connectivity encodings (17-segment frames: auxiliary only, the 2x3 frame with single_cycle on only).  Scale family (not exhaustive): the 7x7 frame (thorough 10x10) with loops in opposite corners, and on frames up to 4x4 / 3x5 (thorough 6x6) the perimeter, the serpentine "
         "boundary, figure eights, two overlapping rectangles (two strands), disjoint cycles, an open perimeter; weaves: the longest self-crossing closed strands of the 3x3 .. 4x5 (thorough 5x5) frames from a complete scan of the cycle space, each also opened / with a spur; options also given as 1 / 0.  Oracle: per-point degree rule (0/1/2/4, no 1 for "
         "cycles, 4 only at interior points) and one strand in the segment graph where the two straight pairs pass through each other "
         "at 4-way points; for every admitted subset OR(returned != expected) over both returned arrays must be UNSAT."
